@@ -141,10 +141,8 @@ Definition on_feimage_cycle_b (d : snode) (id : nat) : bool :=
       tag_eqb (s_tag fe) TFeImage &&
       match node_attr d AHref fe with
       | Some link =>
-          match attr_link AFilter (s_attrs link) with
-          | Some u => optN_eqb (Some u) (s_name p) && Nat.eqb (s_id link) id
-          | None => false
-          end
+          Nat.eqb (s_id link) id &&
+          existsb (fun e => match e with Some u => optN_eqb (Some u) (s_name p) | None => false end) (flist (s_attrs link))
       | None => false
       end) (s_kids p)) (sflat d).
 
